@@ -98,6 +98,22 @@ class CuckooDriver:
                 ctx.fail(ctx.prop + ".no_exception", f"a fresh filter stores {stored} after adding {k!r}")
             self.fp[k] = stored[0][0] if self.counting else stored[0]
         self.model = {}  # fingerprint -> outstanding additions (plain: 0/1)
+        # a NEIGHBOUR: a second live filter of the same class and geometry whose hashing strategy gives every pool key the same
+        # value (hence the same fingerprint) as the filter under test, but other values for everything else - in particular for
+        # the strings of fingerprints that select the alternate bucket.  It receives the same keys first; nothing is asserted
+        # about it.  Whatever the library shares between instances (class-level or module-level state keyed without the strategy)
+        # is thereby filled with the neighbour's answers before the filter under test asks.
+        self.neighbour = None
+        if case.get("neighbour"):
+            base, keys = self.hf_eff, set(self.pool)
+
+            def nb_hash(key, *a):
+                v = base(key, *a) if a else base(key)
+                return v if key in keys else (v * 2654435761 + 97) & 0xFFFFFFFFFFFFFFFF
+            try:
+                self.neighbour = self.K(**dict(self.cfg, hash_function=nb_hash))
+            except Exception:  # noqa
+                self.neighbour = None
         self.feats = set()
         self.noexc = ctx.prop + ".no_exception"
         self.dir = None
@@ -184,6 +200,12 @@ class CuckooDriver:
         ctx, o = self.ctx, self.obj
         fp = self.fp[k]
         calls0, kicks0, cap0 = self.sr.calls, self.sr.kicks, o.capacity
+        if self.neighbour is not None:
+            try:
+                self.neighbour.add(k)
+            except Exception:  # noqa  (a full neighbour just stays as it is)
+                pass
+            self.feats.add("neighbour_filter_with_other_strategy")
         hot = self.counting and self.model.get(fp, 0) >= 0xFFFFFFFF
         # a bin that already holds the largest count a 32-bit field can carry: the add may be refused (OverflowError, nothing
         # changed) or leave the count pinned - it must not wrap
@@ -478,7 +500,7 @@ def case_strategy(tier, classes=("cuckoo", "counting"), allow_reload=False, max_
             "fs": draw(st.sampled_from([1, 2, 3, 4])), "rate": draw(st.sampled_from([2, 2, 3, 1])),
             "auto": draw(st.booleans()), "hash": draw(st.sampled_from(["default", "narrow", "narrow16", "sha", "clustered", "clustered", "falsy_sha", "edges"])),
             "pool": pool, "tape": draw(st.lists(st.integers(0, 5), max_size=60)),
-            "ops": oplist, "enum_last": enum, "verify_mask": draw(st.one_of(st.just(0), st.just(0), st.integers(1, 255))),
+            "ops": oplist, "enum_last": enum, "neighbour": draw(st.sampled_from([0, 0, 1])), "verify_mask": draw(st.one_of(st.just(0), st.just(0), st.integers(1, 255))),
         }
 
     return case()
